@@ -56,6 +56,10 @@ class multi_output {
   ~multi_output() {
     m_comm.barrier();
     flush_all_buffers();
+    // Close the files, and do not return before every rank has written its
+    // own: the output is complete once the object is gone on any rank
+    m_map_file_pointers.clear();
+    m_comm.cf_barrier();
   }
 
   template <typename... Args>
